@@ -134,6 +134,13 @@ def localfun_program(rnd):
              [S("defun"), S("use-mlocal"), [S("v")],
               [S("let"), [[S("kk"), 7]], [S("macrolet"), [[S("mk"), [S("e")], [S("quasiquote"), [S("+"), [S("unquote"), S("kk")], [S(g2), [S("unquote"), S("e")]]]]]], [S("mk"), S("v")]]]],
              [S("progn"), [S("defmacro"), S("inner-mac"), [S("e")], [S("quasiquote"), [S(g1), [S(g2), [S("unquote"), S("e")]]]]], 0],
+             # (set 'name ...) always writes the PACKAGE binding, also under a local of the same name
+             [S("set"), Q(S("total")), 0],
+             [S("defun"), S("bump"), [S("v")], [S("let"), [[S("total"), [S("*"), S("v"), 2]]], [S("set"), Q(S("total")), [S("+"), S("total"), 1000]], S("total")]],
+             [S("defun"), S("bump2"), [S("total")], [S("set"), Q(S("total")), [S("+"), S("total"), 1]], S("total")],
+             [S("defun"), S("bump3"), [S("v")], [S("dotimes"), [S("total"), 2], [S("set"), Q(S("total")), [S("+"), S("total"), 50]]], S("v")],
+             [S("defun"), S("bump4"), [S("v")], [S("funcall"), [S("lambda"), [S("total")], [S("set"), Q(S("total")), [S("*"), S("total"), 3]], S("total")], S("v")]],
+             [S("probe"), Q(S("set")), [S("bump"), 3], S("total"), [S("bump2"), 5], S("total"), [S("bump3"), 1], S("total"), [S("bump4"), 7], S("total")],
              [S("probe"), Q(S("mlocal")), [S("use-mlocal"), 3]], [S("probe"), Q(S("inner-mac")), [S("inner-mac"), 4]],
              [S("probe"), Q(S("flet")), [S("use-flet"), 3]], [S("probe"), Q(S("labels")), [S("use-labels"), 3]],
              [S("probe"), Q(S("let")), [S("use-let"), 3]], [S("probe"), Q(S("nested")), [S("use-nested"), 3]],
@@ -222,6 +229,9 @@ def _run(V, work, tier):
     # a closure made in a let VALUE that calls the name the let binds it to (next to a global function of that name): at
     # run time the closure belongs to the let's own environment and reaches itself (lisp/op.go keeps a BUG note about it)
     sessions.append(("letself", ["(defun cnt (n) 'global)\n(defun use (v) (let ((cnt (lambda (n) (if (<= n 0) 'local-done (cnt (- n 1)))))) (funcall cnt v)))\n(probe 'r (use 2))\n"], False, None))
+    # a name defined by defun and later rebound at top level with set; quasiquote used as a data template outside a macro
+    sessions.append(("redefset", ["(defun foo () 1)\n(set 'foo (lambda () 2))\n(probe 'r (foo))\n(defun bar (x) (* x 2))\n(set 'bar (lambda (x) (* x 3)))\n(probe 'r2 (bar 5) (funcall bar 5))\n"], False, None))
+    sessions.append(("qqdata", ["(defun mk (x) (quasiquote (x (unquote x) y)))\n(probe 'r (mk 1))\n(let ((x 1) (tag 2)) (probe 'r2 (quasiquote (x tag (unquote x) (unquote tag)))))\n(defun tagged (v) (quasiquote (tagged v (unquote v))))\n(probe 'r3 (tagged 9))\n"], False, None))
     # literal spellings the compact printer must carry over unchanged in VALUE (exponent forms, trailing zeros, escapes)
     LITS = ["1e10", "2.50e-10", "1.5e20", "3e0", "100.0", "1.0", "0.10", "-0.0", "1e-7", "12300.0", "1E3", "6.02e+23", "0x10", "-5", "007",
             '"a\\nb"', '"q\\"q"', "'sym", ":kw", "'(1 2.0 3e2)", '"tab\\there"']
